@@ -99,6 +99,12 @@ def classScope (st : Struct) : List Decl :=
        else [])) ++
   st.nestedEnums.map (fun e => { ident := e, what := "using <enum>" })
 
+/-- The `EmbossReserved…` type names a structure's fields give rise to: nested view classes
+of the non-alias virtual fields, validator structs of the fields with `[requires]`. -/
+def reservedNames (fs : List Field) : List Name :=
+  fs.filterMap (fun f => if f.ownView then virtualViewName f.name else none) ++
+  (fs.filter (·.validator)).map (fun f => validatorName f.name)
+
 /-- Declarations a structure contributes to the namespace scope it is defined in. -/
 def structDecls (n : Name) (id : Nat) : List Decl :=
   [{ ident := s "Generic" ++ n ++ s "View", what := "view class template" },
